@@ -56,6 +56,16 @@ func detach(docs []bson.D) []bson.D {
 	return out
 }
 
+// own hands a document to the database the way a Go caller may - by value or through a pointer - and returns
+// what the caller does once the call has returned: it goes on using its document. What the database stored must
+// be a copy.
+func own(d bson.D) (any, func()) {
+	if len(d)%2 == 1 {
+		return &d, func() { scribble(d) }
+	}
+	return d, func() { scribble(d) }
+}
+
 func scribble(v any) {
 	switch x := v.(type) {
 	case bson.D:
@@ -99,17 +109,25 @@ func drive(ctx context.Context, client lungo.IClient, op *Op) (res model.Res, er
 	coll := client.Database(op.DB).Collection(op.C)
 	switch op.K {
 	case "insertOne":
-		r, err := coll.InsertOne(ctx, op.D.doc())
+		arg, reuse := own(model.CloneD(op.D.doc()))
+		r, err := coll.InsertOne(ctx, arg)
+		reuse()
 		if err != nil {
 			return model.Res{Err: errClass(err)}, err
 		}
 		return model.Res{Inserted: 1, IDs: []any{r.InsertedID}}, nil
 	case "insertMany":
 		var docs []any
+		var reuse []func()
 		for _, d := range op.Docs {
-			docs = append(docs, d.doc())
+			arg, fn := own(model.CloneD(d.doc()))
+			docs = append(docs, arg)
+			reuse = append(reuse, fn)
 		}
 		r, err := coll.InsertMany(ctx, docs, options.InsertMany().SetOrdered(op.Ordered))
+		for _, fn := range reuse {
+			fn()
+		}
 		out := model.Res{Err: errClass(err)}
 		if r != nil {
 			out.IDs = r.InsertedIDs
@@ -193,7 +211,9 @@ func drive(ctx context.Context, client lungo.IClient, op *Op) (res model.Res, er
 		}
 		return updRes(r), nil
 	case "replaceOne":
-		r, err := coll.ReplaceOne(ctx, nonNil(op.F.doc()), op.D.doc(), options.Replace().SetUpsert(op.Upsert))
+		arg, reuse := own(model.CloneD(op.D.doc()))
+		r, err := coll.ReplaceOne(ctx, nonNil(op.F.doc()), arg, options.Replace().SetUpsert(op.Upsert))
+		reuse()
 		if err != nil {
 			return model.Res{Err: errClass(err)}, err
 		}
